@@ -163,72 +163,73 @@ variable {α : Type} [Field α] [LinearOrder α] [IsStrictOrderedRing α]
 def PulseOK (ε : α) (n : ℕ) (integ : α → α → α) (f : α → α) : Prop :=
   |integ 0 1 - 1| < ε ∧ ∀ k, k < n → 0 ≤ f (grid 0 1 n k)
 
-/-- what `_parametrization_is_valid` tests (monotonicity is sampled as `F(x + ε) ≥ F(x)` on a grid of `[0, 1−ε]`) -/
-def ParamOK (ε : α) (n : ℕ) (F : α → α) : Prop :=
-  |F 0| < ε ∧ |F 1 - 1| < ε ∧ ∀ k, k < n → F (grid 0 (1 - ε) n k) ≤ F (grid 0 (1 - ε) n k + ε)
+/-- what `_parametrization_is_valid` tests (monotonicity is sampled as `F(x + ε) ≥ F(x) − τ` on a grid of `[0, 1−ε]`;
+`τ = 0` in the code on the pinned tree, `τ = ε²` after the repair of the rounding defect D17) -/
+def ParamOK (ε τ : α) (n : ℕ) (F : α → α) : Prop :=
+  |F 0| < ε ∧ |F 1 - 1| < ε ∧ ∀ k, k < n → F (grid 0 (1 - ε) n k) - τ ≤ F (grid 0 (1 - ε) n k + ε)
 
 /-- what `_are_compatible` tests (note `≤ ε`: the code rejects on `difference > ε`) -/
 def CompatOK (ε : α) (n : ℕ) (integ : α → α → α) (F : α → α) : Prop :=
   ∀ k, k < n → |integ 0 (grid ε (1 - ε) n k) - F (grid ε (1 - ε) n k)| ≤ ε
 
 /-- the six sampled conditions -/
-def Passes (ε : α) (n : ℕ) (integ : α → α → α) (f F : α → α) : Prop :=
-  PulseOK ε n integ f ∧ ParamOK ε n F ∧ CompatOK ε n integ F
+def Passes (ε τ : α) (n : ℕ) (integ : α → α → α) (f F : α → α) : Prop :=
+  PulseOK ε n integ f ∧ ParamOK ε τ n F ∧ CompatOK ε n integ F
 
 omit [IsStrictOrderedRing α] in
 /-- with validation off nothing is rejected -/
-theorem validation_off_accepts (ε : α) (n : ℕ) (integ : α → α → α) (f F : α → α) :
-    construct false ε n integ f F = .ok () := rfl
+theorem validation_off_accepts (ε τ : α) (n : ℕ) (integ : α → α → α) (f F : α → α) :
+    construct false ε τ n integ f F = .ok () := rfl
 
 /-- **soundness**: a pair meeting the sampled conditions is accepted -/
-theorem validation_sound (ε : α) (n : ℕ) (integ : α → α → α) (f F : α → α)
-    (h : Passes ε n integ f F) : construct true ε n integ f F = .ok () := by
+theorem validation_sound (ε τ : α) (n : ℕ) (integ : α → α → α) (f F : α → α)
+    (h : Passes ε τ n integ f F) : construct true ε τ n integ f F = .ok () := by
   obtain ⟨h1, h2, h3⟩ := h
   have e1 := (pulseIsValid_iff ε n integ f).mpr h1
-  have e2 := (paramIsValid_iff ε n F).mpr h2
+  have e2 := (paramIsValid_iff ε τ n F).mpr h2
   have e3 := (areCompatible_iff ε n integ F).mpr h3
   simp [construct, e1, e2, e3]
 
 /-- a pair whose waveform is not normalised within `ε`, or negative at a grid point, is rejected by the first
 assertion: `AssertionError("Pulse was not valid")` -/
-theorem validation_rejects_pulse (ε : α) (n : ℕ) (integ : α → α → α) (f F : α → α)
-    (h : ¬ PulseOK ε n integ f) : construct true ε n integ f F = .error .pulseNotValid := by
+theorem validation_rejects_pulse (ε τ : α) (n : ℕ) (integ : α → α → α) (f F : α → α)
+    (h : ¬ PulseOK ε n integ f) : construct true ε τ n integ f F = .error .pulseNotValid := by
   have e1 : pulseIsValid ε n integ f = false := by
     rw [← Bool.not_eq_true]; exact fun e => h ((pulseIsValid_iff ε n integ f).mp e)
   simp [construct, e1]
 
 /-- a valid waveform with a parametrisation that does not start at 0 / stop at 1 within `ε`, or decreases over
 one of the sampled `ε`-steps: `AssertionError("Parametrization was not valid")` -/
-theorem validation_rejects_param (ε : α) (n : ℕ) (integ : α → α → α) (f F : α → α)
-    (h1 : PulseOK ε n integ f) (h : ¬ ParamOK ε n F) :
-    construct true ε n integ f F = .error .paramNotValid := by
+theorem validation_rejects_param (ε τ : α) (n : ℕ) (integ : α → α → α) (f F : α → α)
+    (h1 : PulseOK ε n integ f) (h : ¬ ParamOK ε τ n F) :
+    construct true ε τ n integ f F = .error .paramNotValid := by
   have e1 := (pulseIsValid_iff ε n integ f).mpr h1
-  have e2 : paramIsValid ε n F = false := by
-    rw [← Bool.not_eq_true]; exact fun e => h ((paramIsValid_iff ε n F).mp e)
+  have e2 : paramIsValid ε τ n F = false := by
+    rw [← Bool.not_eq_true]; exact fun e => h ((paramIsValid_iff ε τ n F).mp e)
   simp [construct, e1, e2]
 
 /-- both individually valid, but the parametrisation differs from the integral of the waveform by more than `ε`
 at a grid point: `AssertionError("Pulse and parametrization are incompatible. ")` -/
-theorem validation_rejects_incompatible (ε : α) (n : ℕ) (integ : α → α → α) (f F : α → α)
-    (h1 : PulseOK ε n integ f) (h2 : ParamOK ε n F) (h : ¬ CompatOK ε n integ F) :
-    construct true ε n integ f F = .error .incompatible := by
+theorem validation_rejects_incompatible (ε τ : α) (n : ℕ) (integ : α → α → α) (f F : α → α)
+    (h1 : PulseOK ε n integ f) (h2 : ParamOK ε τ n F) (h : ¬ CompatOK ε n integ F) :
+    construct true ε τ n integ f F = .error .incompatible := by
   have e1 := (pulseIsValid_iff ε n integ f).mpr h1
-  have e2 := (paramIsValid_iff ε n F).mpr h2
+  have e2 := (paramIsValid_iff ε τ n F).mpr h2
   have e3 : areCompatible ε n integ F = false := by
     rw [← Bool.not_eq_true]; exact fun e => h ((areCompatible_iff ε n integ F).mp e)
   simp [construct, e1, e2, e3]
 
 /-- acceptance is *exactly* the six sampled conditions -/
-theorem validation_accepts_iff (ε : α) (n : ℕ) (integ : α → α → α) (f F : α → α) :
-    construct true ε n integ f F = .ok () ↔ Passes ε n integ f F := by
-  refine ⟨fun h => ?_, validation_sound ε n integ f F⟩
+theorem validation_accepts_iff (ε τ : α) (n : ℕ) (integ : α → α → α) (f F : α → α) :
+    construct true ε τ n integ f F = .ok () ↔ Passes ε τ n integ f F := by
+  refine ⟨fun h => ?_, validation_sound ε τ n integ f F⟩
   by_contra hp
   by_cases h1 : PulseOK ε n integ f
-  · by_cases h2 : ParamOK ε n F
+  · by_cases h2 : ParamOK ε τ n F
     · have h3 : ¬ CompatOK ε n integ F := fun h3 => hp ⟨h1, h2, h3⟩
-      rw [validation_rejects_incompatible ε n integ f F h1 h2 h3] at h; cases h
-    · rw [validation_rejects_param ε n integ f F h1 h2] at h; cases h
-  · rw [validation_rejects_pulse ε n integ f F h1] at h; cases h
+      rw [validation_rejects_incompatible ε τ n integ f F h1 h2 h3] at h; cases h
+    · rw [validation_rejects_param ε τ n integ f F h1 h2] at h; cases h
+  · rw [validation_rejects_pulse ε τ n integ f F h1] at h; cases h
 
 /-- **rejection, the part that is true.**  The literal claim of C13 — construction *fails for every pair whose
 waveform is not normalised, whose parametrisation does not run from 0 to 1, or whose parametrisation is not the
@@ -236,11 +237,11 @@ running integral of the waveform* — cannot hold for a validator that samples `
 (see `literal_rejection_claim_false`).  What holds: a pair violating one of the conditions **at a sampled
 point / beyond `ε`** is not constructed; the construction raises one of the three `AssertionError`s (which one:
 `validation_rejects_pulse / _param / _incompatible`). -/
-theorem validation_rejects_partial (ε : α) (n : ℕ) (integ : α → α → α) (f F : α → α)
-    (h : ¬ Passes ε n integ f F) : ∃ e, construct true ε n integ f F = .error e := by
-  cases hc : construct true ε n integ f F with
+theorem validation_rejects_partial (ε τ : α) (n : ℕ) (integ : α → α → α) (f F : α → α)
+    (h : ¬ Passes ε τ n integ f F) : ∃ e, construct true ε τ n integ f F = .error e := by
+  cases hc : construct true ε τ n integ f F with
   | error e => exact ⟨e, rfl⟩
-  | ok u => exact absurd ((validation_accepts_iff ε n integ f F).mp hc) h
+  | ok u => exact absurd ((validation_accepts_iff ε τ n integ f F).mp hc) h
 
 omit [IsStrictOrderedRing α] in
 /-- `GaussianPulse._validate_inputs` accepts exactly when every type assertion holds and the computed
@@ -259,6 +260,17 @@ theorem gaussian_validate_inputs_zero (typeChecks : List Bool) (h : ∀ b ∈ ty
   have h1 : typeChecks.all id = true := by rw [List.all_eq_true]; simpa only [id] using h
   simp [gaussianValidateInputs, h1]
 
+/-- why a positive slack `τ` makes the sampled monotonicity test immune to rounding (the repair of D17): values `F'`
+that are within `τ/2` of a monotone `F` pass it -/
+theorem monotone_check_tolerates_rounding (ε τ : α) (n : ℕ) (F F' : α → α) (hε : 0 ≤ ε) (hF : Monotone F)
+    (hclose : ∀ x, |F' x - F x| ≤ τ / 2) :
+    ∀ k, k < n → F' (grid 0 (1 - ε) n k) - τ ≤ F' (grid 0 (1 - ε) n k + ε) := by
+  intro k _
+  have h1 := abs_le.mp (hclose (grid 0 (1 - ε) n k))
+  have h2 := abs_le.mp (hclose (grid 0 (1 - ε) n k + ε))
+  have h3 : F (grid 0 (1 - ε) n k) ≤ F (grid 0 (1 - ε) n k + ε) := hF (by linarith)
+  linarith [h1.2, h2.1]
+
 end Validators
 
 /-- `constructor_accepts_iff` of the design: the constructor rejects well-typed inputs exactly when the computed
@@ -274,7 +286,7 @@ of the waveform `f = 1`, the parametrisation that is `x` except for the value `9
 although it differs from the running integral by `2/5` there (and is not monotone).  No grid of the validator
 contains `1/2`. -/
 theorem literal_rejection_claim_false :
-    ∃ (f F : ℚ → ℚ), construct true (1 / 1000000 : ℚ) 10 (fun a b => b - a) f F = .ok () ∧
+    ∃ (f F : ℚ → ℚ), construct true (1 / 1000000 : ℚ) 0 10 (fun a b => b - a) f F = .ok () ∧
       (∀ a b, (fun a b => b - a) a b = (b - a) * f 0) ∧ |F (1/2) - ((1/2 : ℚ) - 0)| = 2 / 5 := by
   refine ⟨fun _ => 1, fun x => if x = 1/2 then 9/10 else x, ?_, by intro a b; simp, by norm_num⟩
   apply validation_sound
@@ -288,13 +300,13 @@ theorem literal_rejection_claim_false :
 
 /-- **every exactly valid pair passes**: `f` integrable and non-negative on `[0,1]` with integral 1, `F` its
 running integral on `[0,1]`, `quad` returning the integral — accepted for every number of sample points and
-every tolerance `0 < ε ≤ 1/2` (the code's `ε = 10⁻⁶`). -/
-theorem exactly_valid_pair_passes (f F : ℝ → ℝ) (ε : ℝ) (n : ℕ) (hε : 0 < ε) (hε2 : ε ≤ 1 / 2)
+every tolerance `0 < ε ≤ 1/2` (the code's `ε = 10⁻⁶`) and every monotonicity slack `τ ≥ 0` (the code's `τ = 0`). -/
+theorem exactly_valid_pair_passes (f F : ℝ → ℝ) (ε τ : ℝ) (n : ℕ) (hε : 0 < ε) (hε2 : ε ≤ 1 / 2) (hτ : 0 ≤ τ)
     (hint : IntervalIntegrable f volume 0 1)
     (hnonneg : ∀ x ∈ Icc (0:ℝ) 1, 0 ≤ f x)
     (hone : ∫ x in (0:ℝ)..1, f x = 1)
     (hF : ∀ x ∈ Icc (0:ℝ) 1, F x = ∫ t in (0:ℝ)..x, f t) :
-    construct true ε n (fun a b => ∫ t in a..b, f t) f F = .ok () := by
+    construct true ε τ n (fun a b => ∫ t in a..b, f t) f F = .ok () := by
   apply validation_sound
   have hF0 : F 0 = 0 := by rw [hF 0 ⟨le_rfl, zero_le_one⟩]; simp
   have hF1 : F 1 = 1 := by rw [hF 1 ⟨zero_le_one, le_rfl⟩, hone]
@@ -328,27 +340,31 @@ theorem exactly_valid_pair_passes (f F : ℝ → ℝ) (ε : ℝ) (n : ℕ) (hε 
     rw [hF _ ⟨by linarith [hg.1], by linarith [hg.2]⟩]
     simp [hε.le]
 
-/-- the tolerance and grid size read from the class attributes `Pulse.epsilon`, `Pulse.check_n_points` -/
+/-- the tolerance read from the class attribute `Pulse.epsilon` and the slack of the monotonicity comparison read from
+`_parametrization_is_valid` (generated constants) -/
 noncomputable def pulseEpsilon : ℝ := (pulseEpsilonNum : ℝ) / (pulseEpsilonDen : ℝ)
+noncomputable def pulseMonoTol : ℝ := (pulseMonoTolNum : ℝ) / (pulseMonoTolDen : ℝ)
 
 /-- `GaussianPulse(loc, scale, perform_checks=True)` passes the validation of `Pulse.__init__` for every `loc`
 and every `scale > 0` (exact arithmetic, exact quadrature), with the constants the code has now -/
 theorem gaussian_pair_passes_validation (hs : 0 < scale) :
-    construct true pulseEpsilon pulseCheckNPoints
+    construct true pulseEpsilon pulseMonoTol pulseCheckNPoints
       (fun a b => ∫ t in a..b, gaussianWaveform loc scale t)
       (gaussianWaveform loc scale) (gaussianParam loc scale) = .ok () := by
   apply exactly_valid_pair_passes
   · unfold pulseEpsilon pulseEpsilonNum pulseEpsilonDen; norm_num
   · unfold pulseEpsilon pulseEpsilonNum pulseEpsilonDen; norm_num
+  · unfold pulseMonoTol; positivity
   · exact waveform_intervalIntegrable loc 0 1
   · intro x _; exact waveform_nonneg loc hs x
   · exact waveform_integral_one loc hs
   · intro x hx; exact param_is_running_integral loc hs hx.1
 
 /-- non-vacuity of the hypotheses of `exactly_valid_pair_passes`: the linear ramp `f = 2x`, `F = x²` -/
-example : construct true (1 / 1000000 : ℝ) 10 (fun a b => ∫ t in a..b, 2 * t) (fun x => 2 * x) (fun x => x ^ 2)
+example : construct true (1 / 1000000 : ℝ) 0 10 (fun a b => ∫ t in a..b, 2 * t) (fun x => 2 * x) (fun x => x ^ 2)
     = .ok () := by
   apply exactly_valid_pair_passes
+  · norm_num
   · norm_num
   · norm_num
   · exact (continuous_const.mul continuous_id).intervalIntegrable _ _
@@ -357,7 +373,7 @@ example : construct true (1 / 1000000 : ℝ) 10 (fun a b => ∫ t in a..b, 2 * t
   · intro x _; rw [intervalIntegral.integral_const_mul, integral_id]; ring
 
 /-- non-vacuity of `validation_rejects_pulse`: the unnormalised constant waveform `f = 2` over `ℚ` -/
-example : construct true (1 / 1000000 : ℚ) 10 (fun a b => 2 * (b - a)) (fun _ => 2) (fun x => 2 * x)
+example : construct true (1 / 1000000 : ℚ) 0 10 (fun a b => 2 * (b - a)) (fun _ => 2) (fun x => 2 * x)
     = .error .pulseNotValid := by
   apply validation_rejects_pulse
   rintro ⟨h, -⟩
@@ -365,8 +381,8 @@ example : construct true (1 / 1000000 : ℚ) 10 (fun a b => 2 * (b - a)) (fun _ 
 
 /-- the function the driver executes (`constructRat`: the model on core Lean's `Rat`, elaborated without Mathlib) is
 covered by the theorems above (which see `ℚ` through Mathlib's field and order instances) -/
-theorem driver_instance_accepts_iff (ε : ℚ) (n : ℕ) (integ : ℚ → ℚ → ℚ) (f F : ℚ → ℚ) :
-    constructRat true ε n integ f F = .ok () ↔ Passes ε n integ f F :=
-  validation_accepts_iff ε n integ f F
+theorem driver_instance_accepts_iff (ε τ : ℚ) (n : ℕ) (integ : ℚ → ℚ → ℚ) (f F : ℚ → ℚ) :
+    constructRat true ε τ n integ f F = .ok () ↔ Passes ε τ n integ f F :=
+  validation_accepts_iff ε τ n integ f F
 
 end QG.C13
